@@ -45,6 +45,7 @@ var concOps = []concOp{
 	{"Redefine(tA)", "redefine", "tA", "none"},
 	{"Call(tD;T2)", "calldef", "tD", "T2"},
 	{"Call(tA;none)", "call", "tA", "none"},
+	{"Call(rf;T1,T2)", "callrf", "rf", "T1T2"},
 }
 
 func (c ConcCase) String() string {
@@ -102,8 +103,9 @@ func newConcWorld(c ConcCase, quiet bool, cur func() int) *concWorld {
 	cw.targets["tB"] = build(FuncSpec{ID: "tB", In: []Label{{"a", 0, ""}, {"q", 3, ""}}, InForm: FormStruct, Out: []Label{{"", 2, ""}}, OutForm: FormPositional})
 	raw3 := w.rawFunc(FuncSpec{ID: "c3", In: []Label{{"", 0, ""}}, Out: []Label{{"n", 3, "s"}}, InForm: FormStruct, OutForm: FormStruct})
 	gen := func(v am.Value) (*am.Func, error) { return nil, nil }
-	// one shared option slice with every option constructor
-	cw.shared = []am.Arg{
+	// one shared option slice with every option constructor; like any slice grown with
+	// append it has spare capacity
+	cw.shared = append(make([]am.Arg, 0, 32),
 		am.ConverterFunc(c1, c2),
 		am.Named("Zed", T3{"shared-zed"}),
 		am.NamedSubtype("Q", T3{"shared-q"}, "s"),
@@ -114,14 +116,20 @@ func newConcWorld(c ConcCase, quiet bool, cur func() int) *concWorld {
 		am.FilterInput(am.FilterOr(am.FilterType(typeOf(1)), am.FilterType(typeOf(2)))),
 		am.FilterOutput(func(am.Value) bool { return true }),
 		am.Logger(nullLogger),
-	}
-	// a Func with default options
-	td, err := am.NewFunc(w.rawFunc(FuncSpec{ID: "tD", In: []Label{{"", 0, ""}}, InForm: FormStruct, Out: []Label{{"", 2, ""}}, OutForm: FormPositional}),
-		am.ConverterFunc(c1, c2), am.NamedSubtype("Dq", T3{"def-q"}, "s"), am.Logger(nullLogger))
+	)
+	// a Func with default options (the defaults slice has spare capacity too)
+	defs := append(make([]am.Arg, 0, 16), am.ConverterFunc(c1, c2), am.NamedSubtype("Dq", T3{"def-q"}, "s"), am.Logger(nullLogger))
+	td, err := am.NewFunc(w.rawFunc(FuncSpec{ID: "tD", In: []Label{{"", 0, ""}}, InForm: FormStruct, Out: []Label{{"", 2, ""}}, OutForm: FormPositional}), defs...)
 	if err != nil {
 		panic(HarnessPanic{"conc: tD: " + err.Error()})
 	}
 	cw.targets["tD"] = td
+	// a redefined function shared by the threads (built from the shared slice)
+	rf, err := cw.targets["tA"].Redefine(cw.shared...)
+	if err != nil {
+		panic(HarnessPanic{"conc: Redefine: " + err.Error()})
+	}
+	cw.targets["rf"] = rf
 	return cw
 }
 
@@ -170,6 +178,15 @@ func (cw *concWorld) perform(t, j, oi int) {
 		switch op.kind {
 		case "call":
 			r := cw.targets[op.tgt].Call(args...)
+			e = fmt.Sprintf("%s: %s", op.name, errKey(cw.w, r.Err()))
+			if r.Err() == nil {
+				for i := 0; i < r.Len(); i++ {
+					e += " " + provOfIface(r.Out(i))
+				}
+			}
+		case "callrf":
+			// the redefined function, with a value for whatever it declares
+			r := cw.targets[op.tgt].Call(am.Typed(T1{fmt.Sprintf("x%d_%d", t, j)}), am.Typed(T2{fmt.Sprintf("y%d_%d", t, j)}))
 			e = fmt.Sprintf("%s: %s", op.name, errKey(cw.w, r.Err()))
 			if r.Err() == nil {
 				for i := 0; i < r.Len(); i++ {
